@@ -10,7 +10,7 @@ import os
 import verif as V
 
 PROP = "C16"
-SPEC = ["Bng.Spec.C16Teardown", "Bng.Spec.C16Pppoe", "Bng.Spec.C16PppoeWhole", "Bng.Spec.C16SubMgr"]
+SPEC = ["Bng.Spec.C16Teardown", "Bng.Spec.C16Pppoe", "Bng.Spec.C16PppoeWhole", "Bng.Spec.C16SubMgr", "Bng.Spec.C16Paths"]
 COMPS = [
     V.Component("pppoesrv", monitors=["residue", "conservation", "obs-roundtrip"]),
     V.Component("teardown", monitors=["double-stop", "double-cleanup", "residue", "missing-stop", "stop-unstarted", "stop-before-end", "not-terminated", "double-padt", "stop-without-start"]),
@@ -33,12 +33,32 @@ ASSUME = [
     "RADIUS accounting is observed as the Stop records a real loopback accounting server accepts; the eBPF removal as the callback invocations",
     "concurrent terminations are modelled as sequential ones (SessionTeardown.cleanup runs under its mutex; the tornDown flag is set under the session lock)",
     "the idle-sweep leak of the PPPoE server is the recorded finding KF-pppoe-idle-leak",
+    "translator harness/cmd/extractpaths (go/ast, no type information): the table lists what is syntactically reachable inside the package (depth 4, calls resolved only through the receiver or a package-unique name); guards, order and arguments of the calls are not in the table - those are the models' and the correspondence runs' business",
     "subscriber.Manager: two TerminateSession calls are interleaved at the manager's unlock points (tbegin/tresume); AssignAddress on a session that already holds an address (incl. while its termination is parked) lies outside Bng.SubMgr.Valid: the two recorded findings KF-submgr-reassign-leak / KF-submgr-assign-race",
 ]
 
 
+PATHS = os.path.join(V.LEAN, "Bng", "Gen", "Paths.lean")
+
+
+def regenerate(ctx):
+    """translator: re-extract the termination-path table (calls and deletes reachable from every termination entry
+    point) from V.REPO's working tree at the start of every run; Bng.Spec.C16Paths decides on it that every path reaches
+    every release.  extractpaths writes to a temporary file and renames it; on failure the stale table is removed so
+    that the Spec module cannot be checked against it."""
+    with V.Lock("lean"):
+        with V.Lock("gomod"):
+            rc, out = V.sh(["go", "run", "./cmd/extractpaths", "-repo", V.REPO, "-out", PATHS], cwd=V.HARNESS, env=V.env_go())
+        if rc != 0 and os.path.exists(PATHS):
+            os.remove(PATHS)
+    if rc != 0:
+        msg = "; ".join(l for l in out.splitlines() if l.startswith("extractpaths:") and "wrote" not in l) or out[-800:]
+        ctx.broken.append(("translator", "extract paths failed: " + msg))
+    ctx.notes.append("extractpaths rc=%d" % rc)
+
+
 def run(tier, seed):
-    return V.standard_check(PROP, SPEC, COMPS, LEVEL, ASSUME, tier, seed)
+    return V.standard_check(PROP, SPEC, COMPS, LEVEL, ASSUME, tier, seed, pre=regenerate)
 
 
 def replay(path):
